@@ -1,14 +1,62 @@
-"""C01 — string and key commands behave as a sequential Redis keyspace."""
-from . import gen, memlib
+"""C01 — string and key commands behave as a sequential Redis keyspace.
+
+Proof half: coq/Properties/C01.v (refinement of the reference clauses of coq/Mem/StringsSpec.v by
+the model's exec, for all programs / byte strings / well-formed databases).
+Tie: the programs below run on the real server.Manager (virtual clock) and on the extracted
+model; every reply and every keyspace dump is compared (checks/memlib.py)."""
+import re
+
+from . import gen_str, memlib
 
 PID = "C01"
+_counts = {}
 
 
 def make_cases(tier, seed):
-    n = 400 if tier == "quick" else 6000
-    return gen.gen_c01(seed, n)
+    quick = tier == "quick"
+    streams = [
+        ("set_options", gen_str.set_option_cases()),
+        ("indexes", gen_str.index_cases()),
+        ("malformed", gen_str.malformed_cases(seed)),
+        ("random", gen_str.random_programs(seed, 1500 if quick else 25000)),
+        # bounded-exhaustive: ALL programs of length 2 and 3 over 2 keys x the command instances
+        ("exhaustive_len2", list(gen_str.exhaustive_cases(2))),
+        ("exhaustive_len3", list(gen_str.exhaustive_cases(3, sample=None, seed=seed))),
+    ]
+    if not quick:
+        streams.append(("exhaustive_len3_large_sample",
+                        list(gen_str.exhaustive_cases(3, sample=400000, seed=seed, large=True))))
+        streams.append(("exhaustive_len4_sample", list(gen_str.exhaustive_cases(4, sample=300000, seed=seed))))
+    cases = []
+    for name, cs in streams:
+        _counts[name] = len(cs)
+        cases += cs
+    _counts["command_instances"] = len(gen_str.command_instances())
+    return cases
+
+
+def post(ctx, d):
+    """Count the INCRBYFLOAT steps the model could only accept (outside the exact decimal domain)."""
+    cov = {"streams": dict(_counts), "other_types_prepopulated": gen_str.available_other_types()}
+    ver = d / "main.verdict"
+    if ver.exists():
+        m = re.search(r"SUMMARY .*ood=(\d+)", ver.read_text())
+        if m:
+            cov["incrbyfloat_out_of_domain_steps_skipped"] = int(m.group(1))
+    return None, cov
 
 
 def run(ctx):
-    return memlib.run_family(ctx, PID, make_cases,
-                             rule="seeded random programs (1-30 commands) of string/key commands over 2-6 keys (case variants, empty, binary), all SET option shapes, boundary indexes, numeric extremes, a malformed-arity stream, virtual-clock sleeps")
+    return memlib.run_family(
+        ctx, PID, make_cases,
+        rule=("every SET option subset x argument shape x letter case on a missing key / a string with a deadline / a key of "
+              "another type; GETRANGE/SETRANGE over all index pairs from {min64, -len-1..len+1, max64} for len 0..3 and offsets "
+              "around the 512 MB limit; every command name with 0..5 arguments and unknown names; seeded random programs "
+              "(1-40 commands, pool of 12 keys incl. case variants / empty / CR LF / NUL 0xff, keys pre-populated with the other "
+              "types the model knows, numerals at the int64 edges, INCRBYFLOAT inside and outside the exact decimal domain, "
+              "virtual-clock sleeps); bounded-exhaustive: ALL programs of length 2 and 3 over keys k/K x the command instances built "
+              "from a 6-value argument alphabet (thorough adds seeded samples of length 4 and of a larger instance set)"),
+        extra_tb=["INCRBYFLOAT: exact only on dyadic decimals with <= 15 significant digits (argument in coq/Mem/Strings.v); "
+                  "outside that domain the model accepts the observed reply (counted as incrbyfloat_out_of_domain_steps_skipped)",
+                  "coq/Mem/StringsSpec.v: the reference clauses, transcribed from the Redis command reference from memory"],
+        post=post)
